@@ -1,6 +1,7 @@
 SPECIFICATION TraceSpec
 CONSTANTS
   Tier = "full"
+  EnvDefects = {}
   Pools = {}
   MaxLen = 0
   MaxWire = 0
